@@ -11,6 +11,10 @@
 (* line of the main file stands in a conditional block that is not         *)
 (* selected - it contributes nothing and is not even looked up, whether    *)
 (* the file it names is missing, ambiguous or already included.            *)
+(* backedge: the first library file ends with an #include of the main file *)
+(* (whose own include lines then stand behind an #ifndef guard, so nothing *)
+(* else would stop the recursion): the main file is already being          *)
+(* assembled, so this is a second inclusion and is rejected.               *)
 (*                                                                         *)
 (* The implementation iterates over a SET of search directories, so the    *)
 (* order is arbitrary: LocateLoop is that loop for one order, LocateDecl   *)
@@ -31,14 +35,16 @@ VARIABLES place,    \* [Files -> SUBSET Dirs]   where copies of each file exist
           passed,   \* SUBSET ExtraDirs         -I directories
           dup,      \* BOOLEAN                  one passed directory is given twice under another spelling
           skipmain, \* BOOLEAN                  main's last include line is inside an unselected conditional block
+          backedge, \* BOOLEAN                  the first library file includes the main file at its end
           done
-vars == <<place, incs, passed, dup, skipmain, done>>
+vars == <<place, incs, passed, dup, skipmain, backedge, done>>
 
 Search == passed \cup {"d0"}
 
 \* order-free statement of the lookup
+PlaceOf(name) == IF name = "main" THEN {"d0"} ELSE place[name]
 LocateDecl(name) ==
-    LET cands == {d \in Search : d \in place[name]} IN
+    LET cands == {d \in Search : d \in PlaceOf(name)} IN
     IF cands = {} THEN [st |-> "missing", dir |-> ""]
     ELSE IF Cardinality(cands) > 1 THEN [st |-> "ambiguous", dir |-> ""]
     ELSE [st |-> "found", dir |-> CHOOSE d \in cands : TRUE]
@@ -58,7 +64,8 @@ OrderIndependent == \A name \in Files : \A o \in Orders : LocateLoop(name, o, 1,
 \* Walk the include graph from a file; used is the run-wide set of file paths already opened.
 \* w: [st, used, out]   out = sequence of file names in the order their own text is assembled
 RECURSIVE Walk(_, _), WalkIncs(_, _, _)
-EffIncs(file) == IF file = "main" /\ skipmain /\ incs[file] # <<>> THEN Front(incs[file]) ELSE incs[file]
+EffIncs(file) == IF file = "main" /\ skipmain /\ incs[file] # <<>> THEN Front(incs[file])
+                 ELSE IF file = "A" /\ backedge THEN incs[file] \o <<"main">> ELSE incs[file]
 Walk(file, w) ==
     \* a file assembles its own marker first, then its includes in order
     WalkIncs(EffIncs(file), 1, [w EXCEPT !.out = Append(@, file)])
@@ -79,8 +86,10 @@ Init == /\ place \in [Files -> SUBSET Dirs]
         /\ dup \in BOOLEAN
         /\ (dup => passed # {})
         /\ skipmain \in BOOLEAN
+        /\ backedge \in BOOLEAN
+        /\ (backedge => ~skipmain /\ ~dup)
         /\ done = FALSE
-Next == ~done /\ done' = TRUE /\ UNCHANGED <<place, incs, passed, dup, skipmain>>
+Next == ~done /\ done' = TRUE /\ UNCHANGED <<place, incs, passed, dup, skipmain, backedge>>
 Spec == Init /\ [][Next]_vars
 
 \* design properties
@@ -92,7 +101,7 @@ AcceptedMeansAllUnique ==
 DirOrder == <<"d0", "d1", "d2", "d3">>
 AsSeq(S) == SelectSeq(DirOrder, LAMBDA d : d \in S)
 Scenario == [place |-> [f \in Files |-> AsSeq(place[f])],
-             incs |-> incs, passed |-> AsSeq(passed), dup |-> dup, skipmain |-> skipmain,
+             incs |-> incs, passed |-> AsSeq(passed), dup |-> dup, skipmain |-> skipmain, backedge |-> backedge,
              st |-> Outcome.st, out |-> Outcome.out]
 \* only configurations in which main includes something are worth replaying
 Emit == (done /\ incs["main"] # <<>>) => PrintT(<<"EMIT", ToJson(Scenario)>>)
